@@ -5,7 +5,7 @@
 //! without deferred remap, optimize_indices append/merge). In every state random predicate trees
 //! are run with use_scalar_index(true), (false) and judged against the references.
 
-use crate::c16::{judge, quirk_sig, reference, Expected, RefOutcome};
+use crate::c16::{coercion_sig, judge, quirk_sig, reference, Expected, RefOutcome};
 use crate::core::*;
 use lance::dataset::optimize::{compact_files, CompactionOptions};
 use lance::dataset::UpdateBuilder;
@@ -100,6 +100,8 @@ pub struct IdxTable {
     pub stable_row_ids: bool,
     /// ids whose indexed column was rewritten by an UPDATE of the history
     pub updated_ids: BTreeSet<i64>,
+    /// previous versions of rows rewritten by UPDATEs
+    pub old_versions: Vec<(i64, Row)>,
 }
 
 impl IdxTable {
@@ -159,6 +161,7 @@ impl IdxTable {
         self.ds = r.new_dataset.as_ref().clone();
         let cell = lit_to_cell(&self.model.cols[col].ty, &lit);
         for v in &victims {
+            self.old_versions.push((*v, self.model.rows[v].clone()));
             self.model.rows.get_mut(v).unwrap()[col] = cell.clone();
             self.updated_ids.insert(*v);
         }
@@ -201,6 +204,12 @@ pub struct IdxCtx<'a> {
     pub indexed: &'a [(usize, Ix)],
     pub stable_row_ids: bool,
     pub updated_ids: &'a BTreeSet<i64>,
+    /// history contains an executed compact_files(defer_index_remap = true)
+    pub deferred_compaction: bool,
+    /// ... followed later by an executed ordinary compaction
+    pub normal_after_deferred: bool,
+    /// history contains a delete followed later by an executed ordinary compaction
+    pub compact_after_delete: bool,
 }
 
 /// Narrow classification of an index-vs-reference deviation (see DESIGN §2.7 / §6). A deviation
@@ -228,6 +237,10 @@ pub fn classify_index_deviation(base_sig: &str, got: &BTreeSet<i64>, exp: &BTree
                 return vec!["index-range-upper-bound-first-inclusiveness-swapped".into()];
             }
         }
+    }
+    if cx.stable_row_ids && cx.deferred_compaction {
+        // index coverage is corrupt after this combination (see DEFER_REMAP_SIG)
+        return vec![DEFER_REMAP_SIG.into()];
     }
     let mut sigs = vec![];
     let mut extra_done = extra.is_empty();
@@ -277,15 +290,34 @@ pub fn classify_index_deviation(base_sig: &str, got: &BTreeSet<i64>, exp: &BTree
             missing_done = true;
         }
     }
+    // (4) BTreeIndex::remap ignores a pending fragment-reuse (deferred) mapping: an ordinary
+    //     compaction after a deferred one drops the entries => missing rows only.
+    if !missing_done && extra_done && !cx.stable_row_ids && cx.normal_after_deferred && indexed.iter().any(|(_, ix)| *ix == Ix::BTree) {
+        sigs.push("btree-remap-after-deferred-remap-compaction-loses-rows".into());
+        missing_done = true;
+    }
+    // (5) stable row ids: mask_to_offset_ranges miscounts offsets of RangeWithBitmap segments
+    //     (silent variant of ROWIDS_PANIC_SIG): as many wrong rows as missing ones.
+    if !extra_done && !missing_done && cx.stable_row_ids && cx.compact_after_delete && extra.len() == missing.len() {
+        sigs.push("stable-row-ids-index-hits-read-at-wrong-offsets-after-delete-and-compaction".into());
+        extra_done = true;
+        missing_done = true;
+    }
     if !extra_done || !missing_done {
         sigs.push(format!("index-{base_sig}"));
     }
     sigs
 }
 
-pub const DEFER_REMAP_SIG: &str = "deferred-remap-compaction-groups-indexed-with-unindexed-fragments-then-panics";
+/// stable row ids + compact_files(defer_index_remap = true): fragment ids are not reserved before
+/// the index bitmaps / fragment-reuse index are built => corrupt coverage, load_indices panics.
+pub const DEFER_REMAP_SIG: &str = "stable-row-ids-deferred-remap-compaction-corrupts-index-fragment-bitmaps";
 pub fn is_defer_remap_panic(e: &str) -> bool {
     e.contains("split of indexed and non-indexed data")
+}
+pub const ROWIDS_PANIC_SIG: &str = "stable-row-ids-mask-to-offset-ranges-range-with-bitmap-panics";
+pub fn is_rowids_panic(e: &str) -> bool {
+    e.contains("lance-table/src/rowids.rs") && e.contains("Option::unwrap()")
 }
 
 fn index_types_for(ty: &ColTy) -> Vec<Ix> {
@@ -340,7 +372,11 @@ pub fn run(args: &Args) -> i32 {
                     ColSpec { name: "y".into(), ty: yty.clone(), nullable: rng.chance(1, 2), null_eighths: *rng.pick(&[0u8, 1, 4]), small_domain: true },
                 ],
             };
-            let version = *rng.pick(&[LanceFileVersion::V2_0, LanceFileVersion::V2_1]);
+            let mut version = *rng.pick(&[LanceFileVersion::V2_0, LanceFileVersion::V2_1]);
+            if xty == ColTy::ListI32 && rng.chance(3, 4) {
+                // v2.1 currently panics on some nullable list columns (side finding); keep most list tables on 2.0
+                version = LanceFileVersion::V2_0;
+            }
             let nfrag = rng.urange(1, 3);
             let total = rng.urange(20, max_rows);
             let mut ids = IdAlloc::new(0);
@@ -353,6 +389,16 @@ pub fn run(args: &Args) -> i32 {
                 frags.push(b);
             }
             let stable = rng.chance(1, 3);
+            if let (Some(_), Ok(path)) = (only_case, std::env::var("VERIF_DUMP")) {
+                // debugging aid: dump the generated fragments as an Arrow IPC file
+                let f = std::fs::File::create(&path).expect("dump file");
+                let mut w = arrow::ipc::writer::FileWriter::try_new(f, &frags[0].schema()).expect("ipc");
+                for b in &frags {
+                    w.write(b).expect("ipc write");
+                }
+                w.finish().expect("ipc finish");
+                eprintln!("dumped {} fragments to {path}", frags.len());
+            }
             let ds = match write_table(&unique_uri("c19"), &frags, version, None, None, stable).await {
                 Ok(d) => d,
                 Err(e) => {
@@ -360,7 +406,7 @@ pub fn run(args: &Args) -> i32 {
                     return;
                 }
             };
-            let mut t = IdxTable { ds, model, spec: spec.clone(), ids, version, history: vec![], stable_row_ids: stable, updated_ids: BTreeSet::new() };
+            let mut t = IdxTable { ds, model, spec: spec.clone(), ids, version, history: vec![], stable_row_ids: stable, updated_ids: BTreeSet::new(), old_versions: vec![] };
             // ---- indices
             let mut indexed: Vec<(usize, Ix)> = vec![];
             let (it, ip) = ix.params();
@@ -419,7 +465,7 @@ pub fn run(args: &Args) -> i32 {
                         }
                     };
                     if let Err(e) = r {
-                        if is_defer_remap_panic(&e) && t.history.iter().any(|h| h.starts_with("compact(defer=true")) || (is_defer_remap_panic(&e) && e.starts_with("compact(defer=true")) {
+                        if is_defer_remap_panic(&e) && t.stable_row_ids {
                             report.violation(
                                 DEFER_REMAP_SIG,
                                 &format!("operation after/with deferred-remap compaction panics: {}", e.chars().take(200).collect::<String>()),
@@ -444,6 +490,38 @@ pub fn run(args: &Args) -> i32 {
                         return;
                     }
                 };
+                // sanity: the unfiltered scan must equal the model, otherwise index deviations would be misattributed
+                match run_scan(&t.ds, &Query::default(), &Knobs::default()).await {
+                    Ok(out) => {
+                        let exp = Expected { set: m.rows.keys().copied().collect(), seq: None, limit: None, offset: None };
+                        if let Some(v) = judge(&out, &exp, m) {
+                            if !selftest {
+                                report.violation(
+                                    &format!("table-full-{}", v.sig),
+                                    &format!("unfiltered scan differs from the model: {}", v.what),
+                                    json!({"seed": args.seed, "case": case, "state": state, "table": table_desc, "history": t.history, "detail": v.detail}),
+                                );
+                            }
+                            return;
+                        }
+                    }
+                    Err(e) => {
+                        let es = format!("{e:?}");
+                        if !selftest {
+                            if is_defer_remap_panic(&es) && t.stable_row_ids {
+                                report.violation(DEFER_REMAP_SIG, &es.chars().take(200).collect::<String>(), json!({"seed": args.seed, "case": case, "table": table_desc, "history": t.history, "error": es}));
+                            } else {
+                                // the table itself is unreadable (not an index matter, e.g. the v2.1 nullable-list
+                                // decode panic reported to the lead): counted and skipped
+                                report.count("table_unreadable_skipped", 1);
+                                if report.counter("table_unreadable_skipped") <= 2 {
+                                    report.sample(json!({"table_unreadable": table_desc, "history": t.history, "error": es.chars().take(200).collect::<String>()}));
+                                }
+                            }
+                        }
+                        return;
+                    }
+                }
                 let gen = PredGen::new(
                     m,
                     GenCfg { cols: vec![0, 1, 2], focus: vec![1], max_depth: 3, hostile_literals: true, allow_colcmp: false },
@@ -509,10 +587,25 @@ pub fn run(args: &Args) -> i32 {
                                     let sig = if let Some(qs) = quirk_sig(&got, &ids_exp, &pred, &sql, m, &df).await {
                                         // not an index matter: the same (DataFusion) rewrite hits every path
                                         qs.to_string()
+                                    } else if let Some(cs) = coercion_sig(&got, &ids_exp, &pred, &sql, m, &df).await {
+                                        cs.to_string()
                                     } else if label == "noindex" {
                                         format!("noindex-{}", v.sig)
                                     } else {
-                                        let cx = IdxCtx { indexed: &indexed, stable_row_ids: t.stable_row_ids, updated_ids: &t.updated_ids };
+                                        let cx = IdxCtx {
+                                            indexed: &indexed,
+                                            stable_row_ids: t.stable_row_ids,
+                                            updated_ids: &t.updated_ids,
+                                            deferred_compaction: t.history.iter().any(|h| h.starts_with("compact(defer=true") && !h.contains("rejected")),
+                                            normal_after_deferred: {
+                                                let d = t.history.iter().position(|h| h.starts_with("compact(defer=true") && !h.contains("rejected"));
+                                                d.map(|d| t.history[d + 1..].iter().any(|h| h.starts_with("compact(defer=false") && !h.contains("rejected") && !h.contains("-0+0"))).unwrap_or(false)
+                                            },
+                                            compact_after_delete: {
+                                                let d = t.history.iter().position(|h| h.starts_with("delete("));
+                                                d.map(|d| t.history[d + 1..].iter().any(|h| h.starts_with("compact(defer=false") && !h.contains("rejected") && !h.contains("-0+0"))).unwrap_or(false)
+                                            },
+                                        };
                                         classify_index_deviation(&v.sig, &got, &ids_exp, &pred, m, &cx).join("+")
                                     };
                                     if label == "index" {
@@ -544,10 +637,12 @@ pub fn run(args: &Args) -> i32 {
                             }
                             Err(ScanErr::Failed(e)) => {
                                 if !selftest {
-                                    let sig = if e.contains("range start is greater than range end") && label != "noindex" && indexed.iter().any(|(_, ix)| *ix == Ix::Bitmap) {
+                                    let sig = if (e.contains("range start is greater than range end") || e.contains("range start and end are equal and excluded")) && label != "noindex" && indexed.iter().any(|(_, ix)| *ix == Ix::Bitmap) {
                                         "bitmap-index-inverted-range-panics".to_string()
-                                    } else if is_defer_remap_panic(&e) && t.history.iter().any(|h| h.starts_with("compact(defer=true")) {
+                                    } else if is_defer_remap_panic(&e) && t.stable_row_ids && t.history.iter().any(|h| h.starts_with("compact(defer=true")) {
                                         DEFER_REMAP_SIG.to_string()
+                                    } else if is_rowids_panic(&e) && t.stable_row_ids && label != "noindex" {
+                                        ROWIDS_PANIC_SIG.to_string()
                                     } else {
                                         format!("{}-scan-failed", if label == "noindex" { "noindex" } else { "index" })
                                     };
@@ -566,23 +661,37 @@ pub fn run(args: &Args) -> i32 {
                             Ok(n) => {
                                 if n as usize != ids_exp.len() {
                                     // classify like the scan: the count must equal the size of the indexed scan's result
+                                    // stale entries can explain the count if enough updated rows changed their truth value
+                                    let stale_u = t.old_versions.iter().filter(|(id, old)| {
+                                        m.rows.get(id).map(|cur| eval(&pred, &m.cols, old) != eval(&pred, &m.cols, cur)).unwrap_or(false)
+                                    }).count();
+                                    let diff = (n as i64 - ids_exp.len() as i64).unsigned_abs() as usize;
+                                    if only_case.is_some() {
+                                        eprintln!("DEBUG count: n={n} exp={} stale_u={stale_u} old_versions={} stable={} last={:?}", ids_exp.len(), t.old_versions.len(), t.stable_row_ids, last_index_sig);
+                                    }
                                     let sig = if last_index_sig.as_ref().map(|(_, len)| *len == n as usize).unwrap_or(false) {
                                         last_index_sig.as_ref().unwrap().0.clone()
+                                    } else if t.stable_row_ids && stale_u > 0 && diff <= stale_u {
+                                        if n as usize > ids_exp.len() { "index-stale-entry-after-update-with-stable-row-ids-extra".to_string() } else { "index-stale-entry-after-update-with-stable-row-ids-missing".to_string() }
                                     } else {
                                         "index-count-rows-differs".to_string()
                                     };
-                                    report.violation(
-                                        &sig,
-                                        &format!("count_rows with index = {n}, reference = {}", ids_exp.len()),
-                                        witness("count", json!({"count": n, "expected": ids_exp.len()})),
-                                    );
+                                    for one in sig.split('+') {
+                                        report.violation(
+                                            one,
+                                            &format!("count_rows with index = {n}, reference = {}", ids_exp.len()),
+                                            witness("count", json!({"count": n, "expected": ids_exp.len()})),
+                                        );
+                                    }
                                 }
                             }
                             Err(ScanErr::Failed(e)) => {
-                                let sig = if e.contains("range start is greater than range end") && indexed.iter().any(|(_, ix)| *ix == Ix::Bitmap) {
+                                let sig = if (e.contains("range start is greater than range end") || e.contains("range start and end are equal and excluded")) && indexed.iter().any(|(_, ix)| *ix == Ix::Bitmap) {
                                     "bitmap-index-inverted-range-panics"
-                                } else if is_defer_remap_panic(&e) && t.history.iter().any(|h| h.starts_with("compact(defer=true")) {
+                                } else if is_defer_remap_panic(&e) && t.stable_row_ids && t.history.iter().any(|h| h.starts_with("compact(defer=true")) {
                                     DEFER_REMAP_SIG
+                                } else if is_rowids_panic(&e) && t.stable_row_ids {
+                                    ROWIDS_PANIC_SIG
                                 } else {
                                     "index-count-rows-failed"
                                 };
